@@ -973,7 +973,7 @@ class Engine:
             if len(out) == 1:
                 return out[0]
             return None
-        if '<' in n and not re.match(r'^\w+::\w+$', strip_generics(n)):
+        if '<' in n and not re.match(r'^(?:\w+::)*\w+$', strip_generics(n)):
             return None
         base = strip_generics(n)
         segs = base.split('::')
